@@ -15,7 +15,7 @@ from checks import c01
 
 ID = "C06"
 LEVEL = "model_checking"
-DELTAS = (1e-8, 2.0 ** -10, 0.5)
+DELTAS = (1e-8, 2.0 ** -10, 0.5, 0.0)
 DTS = (2.0 ** -20, 0.125, 1.0)
 RULE = ("every rate-family model x delta x dt x backend {numpy, c, jax}: generalized_rush_larsen generated through get_code is called on the "
         "full Cartesian grid (extended per delta with delta(1 -/+ 2^-10) so the guard is crossed) and compared per state with the "
@@ -62,6 +62,8 @@ def items(tier):
 
 
 def grid(ref, delta):
+    d0 = delta
+    delta = delta if delta > 0 else 2.0 ** -30  # for delta = 0 probe g = 0 exactly and |g| tiny
     if ref.states[0] in ("a", "z"):
         import itertools as _it
         vs = sorted({-2.0, -0.5, 0.0, 1.0, 3.0, 0.5, delta * (1 - 2.0 ** -10), delta * (1 + 2.0 ** -10), -delta * (1 + 2.0 ** -10)})
